@@ -121,6 +121,23 @@ def Params.version' (self : Params) (version : Nat) : Option (Except InvalidPara
   if ¬ (version = 0x13 ∨ version = 0x10) then some (.error .UnknownVersion)
   else some (.ok { self with version := version })
 
+/-- NOT a Rust fn: the builder chain `base.memory_kb(m).and_then(iterations(t)).and_then(parallelism(p))
+    .and_then(version(v))` as the harness (and a typical caller) writes it; `none` = panic, `some (error e)` = the
+    first `Err` -/
+def Params.build (base : Params) (v t m p : Nat) : Option (Except InvalidParam Params) :=
+  match base.memory_kb' m with
+  | none => none
+  | some (.error e) => some (.error e)
+  | some (.ok s) =>
+  match s.iterations' t with
+  | none => none
+  | some (.error e) => some (.error e)
+  | some (.ok s) =>
+  match s.parallelism' p with
+  | none => none
+  | some (.error e) => some (.error e)
+  | some (.ok s) => s.version' v
+
 /-! ### Block, Memory -/
 
 def Block.new : Block := Vector.replicate 128 0
@@ -419,41 +436,46 @@ def hprime_block_init (h0 : Bytes) (col lane : Nat) : Option Bytes :=
 
 /-! ### index_alpha -/
 
+/-- the block expression bound to `reference_area_size` in `index_alpha` (u32 arithmetic) -/
+def index_alpha.reference_area_size (params : Params) (position : BlockPos) (same_lane : Bool) : Option Nat :=
+  if position.pass = 0 then
+    if position.slice = 0 then subU position.index 1
+    else if same_lane then do
+      let a ← mul32 position.slice params.segment_length
+      let b ← add32 a position.index
+      subU b 1
+    else if position.index = 0 then do
+      let a ← mul32 position.slice params.segment_length
+      subU a 1
+    else mul32 position.slice params.segment_length
+  else
+    if same_lane then do
+      let a ← subU params.lane_length params.segment_length
+      let b ← add32 a position.index
+      subU b 1
+    else if position.index = 0 then do
+      let a ← subU params.lane_length params.segment_length
+      subU a 1
+    else subU params.lane_length params.segment_length
+
+/-- the block expression bound to `start_position` in `index_alpha` (1.2.5 Computing starting position; u32) -/
+def index_alpha.start_position (params : Params) (position : BlockPos) : Option Nat :=
+  if position.pass ≠ 0 then
+    if position.slice = SYNC_POINTS - 1 then some 0
+    else do
+      let s1 ← add32 position.slice 1
+      mul32 s1 params.segment_length
+  else some 0
+
 /-- `index_alpha(params, position, pseudo_rand: u32, same_lane) -> u32`: u32 arithmetic for the reference area
     size and start position, u64 for the mapping -/
 def index_alpha (params : Params) (position : BlockPos) (pseudo_rand : Nat) (same_lane : Bool) : Option Nat := do
-  let reference_area_size ←
-    if position.pass = 0 then
-      if position.slice = 0 then subU position.index 1
-      else if same_lane then do
-        let a ← mul32 position.slice params.segment_length
-        let b ← add32 a position.index
-        subU b 1
-      else if position.index = 0 then do
-        let a ← mul32 position.slice params.segment_length
-        subU a 1
-      else mul32 position.slice params.segment_length
-    else
-      if same_lane then do
-        let a ← subU params.lane_length params.segment_length
-        let b ← add32 a position.index
-        subU b 1
-      else if position.index = 0 then do
-        let a ← subU params.lane_length params.segment_length
-        subU a 1
-      else subU params.lane_length params.segment_length
+  let reference_area_size ← index_alpha.reference_area_size params position same_lane
   let relative_position := pseudo_rand
   let relative_position := (← mul64 relative_position relative_position) >>> 32
   let t ← mul64 reference_area_size relative_position
   let relative_position ← subU (← subU reference_area_size 1) (t >>> 32)
-  -- 1.2.5 Computing starting position
-  let start_position ←
-    if position.pass ≠ 0 then
-      if position.slice = SYNC_POINTS - 1 then pure 0
-      else do
-        let s1 ← add32 position.slice 1
-        mul32 s1 params.segment_length
-    else pure 0
+  let start_position ← index_alpha.start_position params position
   -- 1.2.6. Computing absolute position
   let r ← remU (← add64 start_position relative_position) params.lane_length
   pure (r % 2 ^ 32)
@@ -514,11 +536,15 @@ def fill_segment_loop (params : Params) (position : BlockPos) (dia : Bool) (zero
     | none => none
     | some st => fill_segment_loop params position dia zero_block rest st
 
+/-- the expression bound to `data_independent_addressing` in `fill_segment`; Rust precedence: `a || (b && c) && d`
+    parses as `a || ((b && c) && d)` -/
+def data_independent_addressing (params : Params) (position : BlockPos) : Bool :=
+  (params.hash_type == .Argon2i)
+    || ((params.hash_type == .Argon2id && position.pass == 0) && decide (position.slice < SYNC_POINTS / 2))
+
 /-- `fill_segment(params, position, memory)` -/
 def fill_segment (params : Params) (position : BlockPos) (memory : Memory) : Option Memory := do
-  let data_independent_addressing :=
-    (params.hash_type == .Argon2i)
-      || ((params.hash_type == .Argon2id && position.pass == 0) && decide (position.slice < SYNC_POINTS / 2))
+  let data_independent_addressing := data_independent_addressing params position
   let zero_block := Block.new
   let input_block := Block.new
   let address_block := Block.new
@@ -549,12 +575,15 @@ def fill_segment (params : Params) (position : BlockPos) (memory : Memory) : Opt
 
 /-! ### H0, process, entry points -/
 
+/-- one `.update(d)` of the builder chain in `H0::new` (the chain stops at the first panic) -/
+def H0.upd (c : Option (Context UInt64)) (d : Bytes) : Option (Context UInt64) :=
+  match c with
+  | none => none
+  | some c => Context.update Blake2.b .wrapping c d
+
 /-- `H0::new(params, password, salt, key, aad, tag_length: u32)` -/
 def H0.new (params : Params) (password salt key aad : Bytes) (tag_length : Nat) : Option Bytes :=
-  let upd (c : Option (Context UInt64)) (d : Bytes) : Option (Context UInt64) :=
-    match c with
-    | none => none
-    | some c => Context.update Blake2.b .wrapping c d
+  let upd := H0.upd
   let c := Context.new Blake2.b 512
   let c := upd c (natToLE 4 params.parallelism)
   let c := upd c (natToLE 4 tag_length)
